@@ -12,3 +12,15 @@ func VerifRegexps() map[string]*regexp.Regexp {
 		"value":         valueRegex,
 	}
 }
+
+// VerifStrategies exposes the ordered strategy list of an ArgResolver.
+func (a *ArgResolver) VerifStrategies() []any {
+	r := make([]any, len(a.strategies))
+	for i, s := range a.strategies {
+		r[i] = s
+	}
+	return r
+}
+
+// VerifFixed exposes the id/value pair of a FixedValueResolver.
+func (f FixedValueResolver) VerifFixed() (string, string) { return f.id, f.value }
